@@ -30,7 +30,9 @@ class _T:
 
 class Sched:
     cur = None
-    dead = False        # the last scheduler ended in a deadlock: its blocked workers still hold their locks
+    dead = False
+    release_points = False      # pre-emption points also after lock releases (opt-in per family)
+    # (dead:) the last scheduler ended in a deadlock: its blocked workers still hold their locks
 
     def __init__(self, eng, preempt_bound, lines=False):
         self.eng = eng
@@ -229,6 +231,12 @@ class FakeLock:
     def release(self):
         self.locked_ = False
         self.owner = None
+        if Sched.release_points:
+            # families that ask for it may also be pre-empted right after a lock was released (check-then-act code that
+            # finishes its "act" outside the critical section)
+            s = Sched.cur
+            if s is not None and s.running and s.me() is not None:
+                s.yield_point('unlock')
 
     def locked(self):
         return self.locked_
